@@ -199,6 +199,13 @@ class ClientAuthenticator:
         #       authenticating user and that that user actually
         #       owns the keyrings directory
 
+        # The context name is chosen by the server and becomes a file name
+        # inside the keyring directory: refuse anything the DBus
+        # specification forbids in it before touching the file system
+        if not cookie_context or any(
+                c in b'/\\ \n\r\t.' for c in cookie_context):
+            raise Exception('Invalid cookie context name')
+
         if self.cookie_dir is None:
             cookie_dir = os.path.expanduser('~/.dbus-keyrings')
         else:
